@@ -1311,5 +1311,179 @@ def u_equality(ctx):
     ctx.require("signed_zero_pairs_judged", 10)
 
 
+# ---------------------------------------------------------------------------------- Gymnasium round trip
+def first_model_difference(a, b, dict_order):
+    """Kind of the first node where two models differ (None if equal)."""
+    from vlib.c14_helpers import models_equal
+
+    if models_equal(a, b, dict_order=dict_order):
+        return None
+    if a["k"] != b["k"]:
+        return a["k"]
+    if a["k"] == "tuple" and len(a["items"]) == len(b["items"]):
+        for x, y in zip(a["items"], b["items"]):
+            d = first_model_difference(x, y, dict_order)
+            if d:
+                return d
+    if a["k"] == "dict" and len(a["items"]) == len(b["items"]):
+        ia, ib = a["items"], b["items"]
+        if not dict_order:
+            ia, ib = sorted(ia, key=lambda t: t[0]), sorted(ib, key=lambda t: t[0])
+        if [k for k, _ in ia] == [k for k, _ in ib]:
+            for (_, x), (_, y) in zip(ia, ib):
+                d = first_model_difference(x, y, dict_order)
+                if d:
+                    return d
+    return a["k"]
+
+
+def gym_nontrivial(m):
+    from vlib.c14_helpers import box_classes
+
+    k = m["k"]
+    if k in ("tuple", "dict"):
+        return True
+    if k == "box":
+        return m["low"].ndim != 1 or box_classes(m) != ["bounded"]
+    if k == "multibinary":
+        return len(m["shape"]) > 1
+    return k == "discrete" and m["n"] == 1
+
+
+def has_unsorted_dict(m):
+    if m["k"] == "dict":
+        keys = [k for k, _ in m["items"]]
+        return keys != sorted(keys) or any(has_unsorted_dict(s) for _, s in m["items"])
+    if m["k"] == "tuple":
+        return any(has_unsorted_dict(s) for s in m["items"])
+    return False
+
+
+def u_gym(ctx):
+    import warnings
+
+    from lerax.compatibility.gym import gym_space_to_lerax_space as g2l
+    from lerax.compatibility.gym import lerax_to_gym_space as l2g
+    from vlib.c14_helpers import (build, build_gym, extract, extract_gym, gen_leaf, gen_member, gen_nested, has_kind,
+                                  member, mrepr, models_equal)
+
+    warnings.filterwarnings("ignore")
+    rng = ctx.rng
+    N = ctx.n(150, 1000)
+    for i in range(N):
+        m = gen_leaf(rng) if i % 3 == 0 else gen_nested(rng, 1 + i % 3, root=["dict", "tuple"][(i // 3) % 2])
+        desc = {"sp": mrepr(m)}
+        try:
+            a = build(m, variant=i)
+            ref = build_gym(m)
+        except Exception as e:  # noqa: BLE001
+            ctx.violation("nested-construction-raises", {"model": mrepr(m), "err": repr(e)[:200]})
+            continue
+        # ---- lerax -> gym
+        ctx.case(dict(desc, dir="lerax-gym-lerax"), nontrivial=gym_nontrivial(m), cls=f"gym/l2g2l/{m['k']}")
+        try:
+            g = l2g(a)
+        except Exception as e:  # noqa: BLE001
+            ctx.violation(f"lerax-to-gym-raises-{m['k']}", {"space": mrepr(m), "err": f"{type(e).__name__}: {str(e)[:200]}"})
+            continue
+        try:
+            mg = extract_gym(g)
+        except Exception as e:  # noqa: BLE001
+            ctx.violation(f"lerax-to-gym-wrong-{m['k']}", {"space": mrepr(m), "got": str(g)[:200], "err": repr(e)[:100]})
+            continue
+        ctx.monitor("to_gym_compared_with_reference")
+        d = first_model_difference(m, mg, dict_order=False)
+        if d:
+            ctx.violation(f"lerax-to-gym-wrong-{d}", {"space": mrepr(m), "got": mrepr(mg), "gym": str(g)[:300]})
+        else:
+            try:
+                same = bool(g == ref)
+            except Exception as e:  # noqa: BLE001
+                same = f"raised {e!r}"[:100]
+            if same is not True:
+                ctx.violation(f"lerax-to-gym-wrong-{m['k']}", {"space": mrepr(m), "got": str(g)[:300], "want": str(ref)[:300], "gym_eq": same})
+        # ---- and back
+        try:
+            rt = g2l(g)
+            mrt = extract(rt)
+        except Exception as e:  # noqa: BLE001
+            ctx.violation(f"gym-to-lerax-raises-{m['k']}", {"space": mrepr(m), "gym": str(g)[:200], "err": f"{type(e).__name__}: {str(e)[:200]}"})
+            continue
+        ctx.monitor("roundtrips_judged")
+        if has_unsorted_dict(m):
+            ctx.monitor("dict_roundtrips_with_unsorted_keys")
+        d = first_model_difference(m, mrt, dict_order=False)
+        if d:
+            ctx.violation(f"gym-roundtrip-changes-{d}", {"space": mrepr(m), "got": mrepr(mrt), "via": str(g)[:300]})
+            continue
+        if not models_equal(mg, mrt, dict_order=True):
+            ctx.violation("gym-roundtrip-dict-order-not-gymnasium", {"space": mrepr(m), "gym_order": mrepr(mg), "got": mrepr(mrt)})
+            continue
+        # lerax's own == against the original re-keyed in Gymnasium's order
+        expect = build(mg, variant=i + 1)
+        st, r = eq_call(rt, expect)
+        st2, r2 = eq_call(expect, rt)
+        ctx.monitor("roundtrip_lerax_eq_judged")
+        owner = "dict" if has_kind(m, "dict") else m["k"]
+        if st != "ok" or st2 != "ok":
+            ctx.violation(f"{owner}-eq-raises", {"space": mrepr(m), "got": [r, r2]})
+        elif r is not True or r2 is not True:
+            ctx.violation(f"{owner}-eq-false-for-equal", {"space": mrepr(m), "tag": "gym-roundtrip", "got": [r, r2], "want": True})
+
+        # ---- gym -> lerax -> gym from a hand-built Gymnasium space (insertion-ordered Dict on odd i)
+        try:
+            g0 = build_gym(m, ordered=bool(i % 2))
+        except Exception:  # noqa: BLE001
+            continue
+        mg0 = extract_gym(g0)
+        ctx.case(dict(desc, dir="gym-lerax-gym", ordered=bool(i % 2)), nontrivial=gym_nontrivial(m), cls=f"gym/g2l2g/{m['k']}")
+        try:
+            l0 = g2l(g0)
+            ml0 = extract(l0)
+        except Exception as e:  # noqa: BLE001
+            ctx.violation(f"gym-to-lerax-raises-{m['k']}", {"gym": str(g0)[:300], "err": f"{type(e).__name__}: {str(e)[:200]}"})
+            continue
+        ctx.monitor("from_gym_judged")
+        d = first_model_difference(mg0, ml0, dict_order=True)
+        if d:
+            ctx.violation(f"gym-to-lerax-wrong-{d}", {"gym": str(g0)[:300], "want": mrepr(mg0), "got": mrepr(ml0)})
+            continue
+        try:
+            g1 = l2g(l0)
+            same = bool(g1 == g0) and models_equal(extract_gym(g1), mg0, dict_order=False)
+        except Exception as e:  # noqa: BLE001
+            ctx.violation(f"lerax-to-gym-raises-{m['k']}", {"gym": str(g0)[:300], "err": f"{type(e).__name__}: {str(e)[:200]}"})
+            continue
+        if not same:
+            ctx.violation(f"gym-lerax-gym-roundtrip-changes-{m['k']}", {"gym": str(g0)[:300], "got": str(g1)[:300]})
+
+        # ---- sanity of the membership model against the reference library (clean representations only)
+        if m["k"] in ("discrete", "box", "multibinary", "multidiscrete") and i % 2 == 0:
+            cands = [gen_member(rng, m, md) for md in ("low", "high", "random")]
+            cands += [v for c, v in bad_leaf(rng, m) if isinstance(v, np.ndarray) and v.dtype.kind in "iuf"
+                      and not (m["k"] != "box" and v.dtype.kind == "f")]
+            for x in cands:
+                if m["k"] == "multibinary":
+                    x = np.asarray(x).astype(np.int8)
+                if m["k"] in ("discrete", "multidiscrete"):
+                    x = np.asarray(x).astype(np.int64)
+                want = member(m, x)
+                if want is None:
+                    continue
+                try:
+                    got = bool(ref.contains(x))
+                except Exception:  # noqa: BLE001
+                    continue
+                ctx.monitor("model_vs_gymnasium_compared")
+                if got != want:
+                    ctx.monitor("model_vs_gymnasium_disagreements")
+                    ctx.inconc(f"membership model disagrees with Gymnasium on {mrepr(m)} x={x!r}: model {want}, gym {got}")
+    ctx.require("roundtrips_judged", 100)
+    ctx.require("to_gym_compared_with_reference", 100)
+    ctx.require("from_gym_judged", 100)
+    ctx.require("dict_roundtrips_with_unsorted_keys", 10)
+    ctx.require("model_vs_gymnasium_compared", 100)
+
+
 def run_unit(name, ctx):
     globals()["u_" + name](ctx)
